@@ -44,7 +44,8 @@ POLS = [dict(hashes="deep", arrays="all", aoh="all", sets="unique"),
         dict(hashes="deep", arrays="left", aoh="unique", sets="left")]
 MULTI = [(("all",),), (("key", "a"), ("all",)),
          (("search", ".", "^", "a", False),), (("trav",), ("key", "a")),
-         (("all",), ("all",))]
+         (("all",), ("all",)),
+         (("key", "a"), ("search", ".", "^", "a", False))]
 MISSING = [(("key", "z"),), (("key", "a"), ("key", "z")),
            (("key", "a"), ("key", "z"), ("key", "y")),
            (("search", ".", "=", "zz", False),),
@@ -63,6 +64,11 @@ def plan(tier):
                   ("m", (("a", ("l", (1, "x"))),))):
         LEFTS.append(("m", (("a", inner), ("b", inner))))
         LEFTS.append(("l", (inner, inner)))
+    # keys which need an escape in a path (a search over key names reports
+    # them, the merge then writes through the reported path)
+    LEFTS.append(("m", (("a.b", 1), ("a c", "x"), ("ab", 1))))
+    LEFTS.append(("m", (("a", ("m", (("a.x", 1), ("a y", "x"), ("b", 1)))),
+                        ("b", 1))))
     bounds = {"left_documents": len(LEFTS), "right_documents":
               [r[0] for r in RDOCS], "policy_vectors": len(POLS),
               "multi_target_paths": [paths.render(p, "/") for p in MULTI],
